@@ -31,7 +31,7 @@ struct Location {
 
 LineNumber expected_line_number(const Hunk& hunk);
 
-Location locate_hunk(const std::vector<Line>& content, const Hunk& hunk, bool ignore_whitespace = false, LineNumber offset = 0, LineNumber max_fuzz = 2);
+Location locate_hunk(const std::vector<Line>& content, const Hunk& hunk, bool ignore_whitespace = false, LineNumber offset = 0, LineNumber max_fuzz = 2, LineNumber min_line = 0);
 
 bool matches_ignoring_whitespace(const std::string& as, const std::string& bs);
 
